@@ -37,6 +37,16 @@ def rules(ctx):
     from . import C05
     C05.c051(ctx)
     C05.c055(ctx)
+    # what a read sees is governed by the snapshot it captures and the visibility watermark (a watermark that is not advanced,
+    # or a snapshot taken outside the lock, returns an older value even without concurrency beyond the flush thread)
+    C06.c063(ctx)
+    C06.c065(ctx)
+    # close/reopen cycles: the log is replayed (or provably empty) before it is retired, the manifest replays an edit in
+    # remove-then-add order, and the orphan scan never selects a listed file -- otherwise reopen loses a write or fails
+    from . import C13, C08
+    C02.c025(ctx)
+    C13.c135(ctx)
+    C08.c084(ctx)
 
 
 def false_edges_of(f, callee_pat, arg_pred=None):
